@@ -50,6 +50,75 @@ def registered_linear_pass(ctx):
                         ctx.violation('registered-differs', case, str(exp)[:200], str(got)[:200], key='registered:linear:' + ('symbolic' if symbolic else 'tape'))
 
 
+def scalar_operand_pass(ctx):
+    """plain numbers as operands of + and -: `a + s`, `s + a`, `a - s`, `s - a`, `alg.add/sub` with one or two plain numbers (also
+    through the list / callable operand forms), for every kind of coefficient container (list, tuple, one ndarray, list of
+    arrays, 2-d ndarray) and with or without a stored scalar blade: the number acts on the scalar blade only and the
+    result has as many coefficients as keys"""
+    import numpy as np
+    from fractions import Fraction
+    from kingdon import MultiVector
+    rng = ctx.rng
+    def asdict(mv):
+        ks_, vs = list(mv.keys()), mv.values()
+        n = len(vs) if not isinstance(vs, np.ndarray) else vs.shape[0]
+        if n != len(ks_):
+            return f'{len(ks_)} keys but {n} coefficients'
+        return {int(k): np.asarray(vs[i], dtype=float) for i, k in enumerate(ks_)}
+    def same(a, b):
+        if isinstance(a, str) or isinstance(b, str):
+            return False
+        ks_ = set(a) | set(b)
+        z = np.zeros(1)
+        return all(np.allclose(np.broadcast_arrays(a.get(k, z), b.get(k, z))[0], np.broadcast_arrays(a.get(k, z), b.get(k, z))[1]) for k in ks_)
+    for sig in ([1, 1, 1], [0, 1, 1]):
+        alg = make_algebra(sig)
+        for keys in ((1, 2, 4), (0, 1, 2), (3, 0, 5), (7,), (0,)):
+            n = len(keys)
+            base = [float(rng.randint(1, 9)) for _ in keys]
+            containers = {
+                'list': lambda: list(base), 'tuple': lambda: tuple(base), 'ndarray': lambda: np.array(base),
+                'list-of-arrays': lambda: [np.array([b, b + 1.0]) for b in base], 'ndarray-2d': lambda: np.array([[b, b + 1.0, b + 2.0] for b in base]),
+            }
+            for cname, mk in containers.items():
+                for sc in (2.5, 3, -1.5):
+                    x = MultiVector.fromkeysvalues(alg, tuple(keys), mk())
+                    xd = asdict(x)
+                    plus = dict(xd); plus[0] = plus.get(0, np.zeros(1)) + sc
+                    minus = dict(xd); minus[0] = minus.get(0, np.zeros(1)) - sc
+                    rminus = {k: -v for k, v in xd.items()}; rminus[0] = rminus.get(0, np.zeros(1)) + sc
+                    forms = {'a + s': (lambda: x + sc, plus), 's + a': (lambda: sc + x, plus), 'a - s': (lambda: x - sc, minus),
+                             's - a': (lambda: sc - x, rminus), 'alg.add(a, s)': (lambda: alg.add(x, sc), plus),
+                             'alg.sub(s, a)': (lambda: alg.sub(sc, x), rminus)}
+                    for fname, (thunk, exp) in forms.items():
+                        case = {'sig': sig, 'keys': list(keys), 'container': cname, 'scalar': sc, 'form': fname}
+                        ctx.case(case, tag='scalar-operand')
+                        try:
+                            got = asdict(thunk())
+                        except Exception as ex:
+                            got = 'raises ' + repr(ex)[:120]
+                        if not same(got, exp):
+                            ctx.violation('scalar-operand', case, str({k: v.tolist() for k, v in exp.items()})[:200],
+                                          str(got if isinstance(got, str) else {k: v.tolist() for k, v in got.items()})[:200],
+                                          key=f'scalar-operand:{fname}:{cname}')
+        # both operands plain numbers
+        a = MultiVector.fromkeysvalues(alg, (1, 2), [Fraction(3), Fraction(4)])
+        two = {'alg.add(5, 3)': (lambda: [alg.add(5, 3)], [{0: 8}]), 'alg.sub(5, 3)': (lambda: [alg.sub(5, 3)], [{0: 2}]),
+               'alg.sub(3, 5)': (lambda: [alg.sub(3, 5)], [{0: -2}]), 'alg.sub(lambda: 5, 3)': (lambda: [alg.sub(lambda: 5, 3)], [{0: 2}]),
+               'alg.sub([5, a], 3)': (lambda: alg.sub([5, a], 3), [{0: 2}, {0: -3, 1: 3, 2: 4}]),
+               'alg.add(1, (10, 20))': (lambda: alg.add(1, (10, 20)), [{0: 11}, {0: 21}]),
+               'alg.sub(7, [a, 2])': (lambda: alg.sub(7, [a, 2]), [{0: 7, 1: -3, 2: -4}, {0: 5}])}
+        for fname, (thunk, exp) in two.items():
+            case = {'sig': sig, 'form': fname}
+            ctx.case(case, tag='scalar-operand:numbers')
+            try:
+                got = [{int(k): v for k, v in zip(r.keys(), r.values()) if v != 0} for r in thunk()]
+            except Exception as ex:
+                got = 'raises ' + repr(ex)[:120]
+            if got != exp:
+                ctx.violation('scalar-operand', case, str(exp), str(got)[:200], key=f'scalar-operand:numbers:{fname}')
+
+
 def run(ctx):
     ctx.rule = ('add/sub on ordered key-tuple pairs (disjoint, overlapping, empty, permuted); neg and the three involutions and '
                 'grade(*gs) on key tuples incl. every pure grade in every dimension d<=8; all compared as polynomial maps with '
@@ -127,3 +196,4 @@ def run(ctx):
     R.flush()
     wrapper_history_pass(ctx, ['add', 'sub'])
     registered_linear_pass(ctx)
+    scalar_operand_pass(ctx)
